@@ -16,15 +16,31 @@ CONSTANTS MaxBlocks, MaxRec, MaxDmg,
 VARIABLES base,   \* sizes (blocks) of the records written, in order
           dmg,    \* <<block index, class, claim>>, increasing block index
           trunc,  \* blocks kept
-          phase   \* "build" -> "damage" -> "done"
-vars == <<base, dmg, trunc, phase>>
+          phase,  \* "build" -> "damage" -> "done"
+          facts   \* what Scan.tla says about the current file (a function of the other variables; computed in the
+                  \* action, where TLC caches LET values - in an invariant it would re-evaluate them at every use)
+vars == <<base, dmg, trunc, phase, facts>>
 
 Total(b) == FoldLeft(LAMBDA x, y : x + y, 0, b)
 
 DmgChoices == {<<"garbage", 0>>, <<"zero", 0>>, <<"ksz0", 0>>, <<"vszhuge", 0>>,
                <<"hdr", 1>>, <<"hdr", 2>>, <<"hdr", 3>>, <<"hdr", BigClaim>>}
 
-Init == base = <<>> /\ dmg = <<>> /\ trunc = 0 /\ phase = "build"
+\* Everything about the file Build(b, d, t).  A file is interesting for conformance (resync) when the scanner
+\* has to resynchronise and finds something afterwards.
+FactsOf(b, d, t) ==
+  LET f   == Build(b, d, t)
+      s   == ScanAll(f)
+      fx  == ScanFixed(f)
+      ex  == Expected(f)
+  IN  [readat |-> C09_ReadAt(f),
+       scan   |-> Proj(s.yields) = ex,                      \* C09_Scan(f)
+       err    |-> s.err,                                    \* KF_F9(f)
+       fixed  |-> Proj(fx.yields) = ex /\ ~fx.err,
+       resync |-> \E i \in 1..Len(fx.yields) : fx.yields[i][3] > 0,
+       nexp   |-> Len(ex)]
+
+Init == base = <<>> /\ dmg = <<>> /\ trunc = 0 /\ phase = "build" /\ facts = FactsOf(<<>>, <<>>, 0)
 
 AddRec ==
   /\ phase = "build"
@@ -32,6 +48,7 @@ AddRec ==
        /\ Total(base) + n <= MaxBlocks
        /\ base' = Append(base, n) /\ trunc' = Total(base) + n
   /\ UNCHANGED <<dmg, phase>>
+  /\ facts' = FactsOf(base', dmg', trunc')
 
 AddDmg ==
   /\ phase \in {"build", "damage"} /\ base # <<>> /\ Len(dmg) < MaxDmg
@@ -39,6 +56,7 @@ AddDmg ==
        /\ (IF dmg = <<>> THEN TRUE ELSE i > dmg[Len(dmg)][1])
        /\ dmg' = Append(dmg, <<i, c[1], c[2]>>)
   /\ phase' = "damage" /\ UNCHANGED <<base, trunc>>
+  /\ facts' = FactsOf(base', dmg', trunc')
 
 \* a truncation counts as one damage; cutting the damaged block itself away would only repeat another file
 Truncate ==
@@ -47,37 +65,21 @@ Truncate ==
        /\ (IF dmg = <<>> THEN TRUE ELSE t >= dmg[Len(dmg)][1])
        /\ trunc' = t
   /\ phase' = "done" /\ UNCHANGED <<base, dmg>>
+  /\ facts' = FactsOf(base', dmg', trunc')
 
 Next == AddRec \/ AddDmg \/ Truncate
 Spec == Init /\ [][Next]_vars
 
 File == Build(base, dmg, trunc)
 
-\* Everything about the current file is computed once per state.  A file is interesting for
-\* conformance (resync) when the scanner has to resynchronise and finds something afterwards.
-Facts ==
-  LET f   == File
-      s   == ScanAll(f)
-      fx  == ScanFixed(f)
-      ex  == Expected(f)
-  IN  [readat |-> C09_ReadAt(f),
-       scan   |-> Proj(s.yields) = ex,
-       err    |-> s.err,
-       fixed  |-> Proj(fx.yields) = ex /\ ~fx.err,
-       resync |-> \E i \in 1..Len(fx.yields) : fx.yields[i][3] > 0,
-       nexp   |-> Len(ex)]
-
-InvReadAt == Facts.readat
-InvScan   == Facts.scan \/ (Excuse /\ Facts.err)          \* C09_Scan(File) \/ KF_F9(File)
+InvReadAt == facts.readat                               \* C09_ReadAt(File)
+InvScan   == facts.scan \/ (Excuse /\ facts.err)         \* C09_Scan(File) \/ KF_F9(File)
 \* what a repair of F9 has to achieve: with the short read treated as a broken region the property holds outright
-InvFixed  == Facts.fixed
-\* all of the above in one evaluation, plus the scenario line
+InvFixed  == facts.fixed
+\* all of the above, plus the scenario line
 InvAll ==
-  LET x == Facts IN
-  /\ x.readat
-  /\ x.scan \/ (Excuse /\ x.err)
-  /\ x.fixed
+  /\ InvReadAt /\ InvScan /\ InvFixed
   /\ (Emit /\ base # <<>>) =>
         PrintT(<<"VERIF-FILE", ToJson([base |-> base, dmg |-> dmg, trunc |-> trunc,
-                                       f9 |-> (x.err /\ ~x.scan), resync |-> x.resync, nexp |-> x.nexp])>>)
+                                       f9 |-> (facts.err /\ ~facts.scan), resync |-> facts.resync, nexp |-> facts.nexp])>>)
 =============================================================================
